@@ -36,7 +36,12 @@ func newBits(b *setz.Bits) *set {
 	s.Add = func(x uint) (bool, bool) { return b.Add(x), true }
 	s.Remove = func(x uint) (bool, bool) { return b.Remove(x), true }
 	s.Contains, s.Len, s.Cap, s.Grow, s.Range = b.Contains, b.Len, b.Cap, b.Grow, b.Range
-	s.All = func(f func(uint) bool) { b.All()(f) }
+	s.All = func(f func(uint) bool) {
+		seq := b.All()
+		n := 0
+		seq(func(uint) bool { n++; return n < 2 }) // a first, interrupted pass over the same sequence value
+		seq(f)
+	}
 	s.Iter = func() func() (uint, bool) {
 		it := b.Iter()
 		return func() (uint, bool) {
